@@ -40,6 +40,8 @@ RULES = {
     "wsgi_latency": "wall-clock: close() of a WSGI event stream must come back with the producer's next step (+ the producer's own cleanup "
     "time of 0 / 50 / 200 ms + 0.5 s tolerance) at ping intervals 30 s / 3 s / 0.5 s, with the producer mid-step or ahead of the client; a "
     "late measurement is repeated three times and only counts if all four are late",
+    "asgi_requests": "exhaustive grid: ten request shapes (Expect: 100-continue, Connection, Last-Event-ID, Content-Length / chunked bodies whose messages arrive "
+    "before the disconnect, HEAD / OPTIONS / PUT) x response kinds x disconnect / cancellation instants; non-trivial = a disconnect before the producer's end",
     "asgi_blanks": "exhaustive grid: byte and event streams whose producer continues with empty items (b'' chunks, events without fields) from step k on, "
     "disconnect / cancellation at every quarter second: empty items are producer steps like any other; non-trivial = a disconnect inside the empty tail",
     "asgi_sources": "exhaustive grid: the producer is an AsyncIterable object without aclose() (not a generator), or the event stream "
@@ -188,7 +190,8 @@ def oracle_asgi(case) -> Result:
         call = asyncio.ensure_future(
             gw.run_asgi(
                 app,
-                gw.make_scope(gw.areq()),
+                gw.make_scope(gw.areq(method=case.get("method", "GET"), headers=[list(h) for h in case.get("headers", [])])),
+                body=[bytes(b) for b in case.get("body", [])] or None,
                 disconnect_at=D,
                 send_raises_after_disconnect=case.get("send_raises", False),
                 send_delay=send_delay,
@@ -898,6 +901,7 @@ SUBS = {
     "asgi_grid": oracle_asgi,
     "asgi_sources": oracle_asgi,
     "asgi_blanks": oracle_asgi,
+    "asgi_requests": oracle_asgi,
     "asgi_cleanup": oracle_asgi,
     "asgi_cancel": oracle_asgi,
     "asgi_slow_client": oracle_asgi,
@@ -1009,6 +1013,31 @@ def asgi_blank_cases():
                 for cancel_at in (0.75, 1.25):
                     if delay:
                         yield _base(kind, delays, None, items=n, cancel_at=cancel_at, blank_from=blank_from)
+
+
+REQUEST_SHAPES = [
+    {"headers": [["Expect", "100-continue"]]},
+    {"headers": [["expect", "100-Continue"], ["Content-Length", "3"]], "method": "POST", "body": [b"abc"]},
+    {"headers": [["Accept", "text/event-stream"], ["Last-Event-ID", "3"], ["Cache-Control", "no-cache"]]},
+    {"headers": [["Connection", "close"]]},
+    {"headers": [["Connection", "keep-alive, Upgrade"], ["Upgrade", "websocket"]]},
+    {"headers": [["Content-Length", "0"]], "method": "POST"},
+    {"headers": [["Content-Length", "6"]], "method": "POST", "body": [b"abc", b"def"]},
+    {"headers": [["Transfer-Encoding", "chunked"]], "method": "PUT", "body": [b"x", b"", b"y"]},
+    {"headers": [["Range", "bytes=0-1"]], "method": "HEAD"},
+    {"headers": [["TE", "trailers"], ["Priority", "u=1"]], "method": "OPTIONS"},
+]
+
+
+def asgi_request_cases():
+    """What the request looks like must not matter for termination: request headers a response might look at (Expect, Connection,
+    Last-Event-ID ...), other methods, request bodies whose messages arrive before the disconnect."""
+    for shape in REQUEST_SHAPES:
+        for kind in ("stream", "sse", "stream-view", "sse-view"):
+            for delays in ([0.5] * 7, [0, 0, 0, 0, 0, 0, 0]):
+                for D in (None, 0.0, 0.75, 1.25, 2.25) if delays[0] else (None, 0.0):
+                    yield _base(kind, delays, None, items=6, disconnect_at=D, **shape)
+            yield _base(kind, [0.5] * 7, None, items=6, cancel_at=1.25, **shape)
 
 
 def asgi_cleanup_cases(quick):
@@ -1131,7 +1160,7 @@ def run(rec, only=None):
     grid = list(asgi_grid())
     core.drive_cases(rec, "asgi_grid", grid, oracle_asgi)
     rec.exhaustive["asgi_grid"] = True
-    for sub, cases in (("asgi_blanks", asgi_blank_cases()), ("asgi_sources", asgi_sources_cases()), ("asgi_cleanup", asgi_cleanup_cases(quick)), ("asgi_cancel", asgi_cancel_cases(quick)),
+    for sub, cases in (("asgi_requests", asgi_request_cases()), ("asgi_blanks", asgi_blank_cases()), ("asgi_sources", asgi_sources_cases()), ("asgi_cleanup", asgi_cleanup_cases(quick)), ("asgi_cancel", asgi_cancel_cases(quick)),
                        ("asgi_slow_client", asgi_slow_client_cases()), ("asgi_endless", asgi_endless_cases())):
         core.drive_cases(rec, sub, cases, oracle_asgi)
         rec.exhaustive[sub] = True
